@@ -11,6 +11,26 @@
 (*        over a file holding `lines`; out = <<lineno, extracted text>> in      *)
 (*        output order; expr = "<{0}|{1}|..|{n}|{name1}|..>"                    *)
 (*                                                                              *)
+(*                                                                              *)
+(* Several instances of ONE compiled pattern used at the same time (DissectShared:*)
+(* with a pool per instance the workers are independent single-instance         *)
+(* machines, so every observation must be explained by the single-instance      *)
+(* specification).  After a reset{..., W, via} of the scenario:                 *)
+(*  cm{line, got, ns}   some instance(s) returned `got` for `line` (ns[w] times *)
+(*                    on worker w); one record per DISTINCT result seen         *)
+(*  clate{line, same, was, now, ns}  a result returned for `line` read `was`    *)
+(*                    when it was returned and `now` when it was read again     *)
+(*                    after thousands of later calls (same = TRUE: unchanged)   *)
+(*  ccrash{msg}        the process running the scenario died (twice in a row):  *)
+(*                    a panic outside FindSubmatchIndex's caller's reach or a   *)
+(*                    fatal runtime error (DissectShared!NoPanic; never allowed *)
+(*                    for a pattern of the domain)                              *)
+(*  ccli{pat, ic, lines, sent, printed, seen, dup, stray}   `rare filter -d pat *)
+(*        [-I] -l -e <expr> -w W` over a file of sent[i] copies of lines[i] in  *)
+(*        random order: printed[i] of them were printed, seen = the distinct    *)
+(*        <<i, extracted text, count>>; dup / stray = line numbers printed      *)
+(*        twice / outside the file                                              *)
+(*                                                                              *)
 (* A record the specification cannot explain is collected in `bad` and the rest *)
 (* of its trace is skipped.                                                     *)
 EXTENDS Dissect, Json, TLC
@@ -86,15 +106,51 @@ TCli ==
   /\ CliOK(Ev)
   /\ tid' = Ev.t /\ hist' = <<>> /\ cur' = NoInst
 
-TStep == TReset \/ TMatch \/ TLate \/ TCli
+\* ---- several instances of one compiled pattern, used concurrently ---------------
+\* a result some instance returned for the line while the others were matching too
+TCMatch ==
+  /\ IsEv("cm")
+  /\ (cur.dom /\ cur.ok) => Allowed(cur.p, Ev.line, cur.ic, Ev.got)
+  /\ UNCHANGED <<tid, cur, hist>>
+
+\* results handed out earlier are not altered by later calls - of any instance
+TCLate ==
+  /\ IsEv("clate")
+  /\ Ev.same /\ Ev.was = Ev.now
+  /\ UNCHANGED <<tid, cur, hist>>
+
+TCCrash ==
+  /\ IsEv("ccrash")
+  /\ ~(cur.dom /\ cur.ok)
+  /\ UNCHANGED <<tid, cur, hist>>
+
+Seen(e, i) == {j \in 1..Len(e.seen) : e.seen[j][1] = i}
+CCliOK(e) ==
+  /\ e.dup = 0 /\ e.stray = 0
+  /\ (InDomain(e.pat) /\ Compiles(e.pat)) =>
+       LET p == Compiled(e.pat) IN
+       \A i \in 1..Len(e.lines) :
+         IF Determined(p, e.lines[i], e.ic)
+         THEN LET r == Expected(p, e.lines[i], e.ic) IN
+              IF r = Nil THEN e.printed[i] = 0 /\ Seen(e, i) = {}
+              ELSE /\ e.printed[i] = e.sent[i]
+                   /\ \A j \in Seen(e, i) : e.seen[j][2] = CliText(p, e.lines[i], r)
+         ELSE Match(p, e.lines[i]) # Nil => e.printed[i] = e.sent[i]
+
+TCCli ==
+  /\ IsEv("ccli")
+  /\ CCliOK(Ev)
+  /\ tid' = Ev.t /\ hist' = <<>> /\ cur' = NoInst
+
+TStep == TReset \/ TMatch \/ TLate \/ TCli \/ TCMatch \/ TCLate \/ TCCrash \/ TCCli
 
 RECURSIVE NextStart(_)
-NextStart(i) == IF i > Len(Trace) \/ Trace[i].event \in {"reset", "cli"} THEN i ELSE NextStart(i + 1)
+NextStart(i) == IF i > Len(Trace) \/ Trace[i].event \in {"reset", "cli", "ccli"} THEN i ELSE NextStart(i + 1)
 
 Skip ==
   /\ l <= Len(Trace)
   /\ ~ENABLED TStep
-  /\ bad' = Append(bad, [t |-> IF Ev.event \in {"reset", "cli"} THEN Ev.t ELSE tid, l |-> l])
+  /\ bad' = Append(bad, [t |-> IF Ev.event \in {"reset", "cli", "ccli"} THEN Ev.t ELSE tid, l |-> l])
   /\ l' = NextStart(l + 1)
   /\ UNCHANGED <<tid, cur, hist>>
 
